@@ -98,7 +98,8 @@ int flagcur;
  struct prioq_elt pe;
  datetime_sec time;
 
- if (!stralloc_copys(filenames,"")) return 0;
+ if (!stralloc_copys(filenames,""))
+   STRERR_SYS(-1,maildir_scan_err,"unable to scan $MAILDIR: ")
  while (prioq_min(pq,&pe)) prioq_delmin(pq);
 
  time = now();
